@@ -20,6 +20,7 @@ RULE = (
     '= SHA-1 of (grid, temperature).'
 )
 RULE += ' Added in rounds 6-8: nearly normalised densities; -0.0 voxels; another temperature asked of the same Volume; result retention.'
+RULE += ' Round 14: the same density multiplied by 2^k, k in {-1040..900} (subnormal to huge totals), has the same free energy.'
 RULE += ' Round 13: the call is made under different floating-point error states and warning filters of the caller (np.errstate / np.seterr ignore, warnings ignored / recorded).'
 ASSUMPTIONS = ['k_B = 1.380649e-23 / 1.602176634e-19 eV/K (exact SI); relative tolerance 1e-9']
 N_CASES = {'quick': 640, 'thorough': 100000}
@@ -209,6 +210,18 @@ def run_unit(unit, rng, ctx):
         w4 = -KB_EV * temp4 * np.log(p[visited].astype(float))
         ctx.check(bool(np.all(np.isfinite(F4))) and np.allclose(F4[visited], w4, rtol=rt, atol=(1e-6 if single else 1e-12) * KB_EV * temp4), f'{what}: the same Volume asked again at {temp4:.4g} K does not give -k_B T ln(p) for that temperature (max dev {np.abs(F4[visited] - w4).max():.3e} eV)', wit)
         ctx.count('requery_at_another_temperature')
+    # the free energy depends on ratios only: the same density in other units (scaled by a power of two, down to
+    # subnormal and up to 1e300-sized numbers; ratios stay exact) has the same free energy
+    if unit['i'] % 4 == 2 and float(np.asarray(data, dtype=float).max()) < 2.0**40:
+        k_sc = int(rng.choice([-1040, -1030, -1022, -900, -300, 300, 900]))
+        if k_sc < -900 and not np.array_equal(np.asarray(data, dtype=float), np.round(np.asarray(data, dtype=float))):
+            k_sc = -900  # non-integer densities would lose bits in the subnormal range; integer counts stay exact
+        dsc = np.ldexp(np.asarray(data, dtype=float), k_sc)
+        with warnings.catch_warnings():
+            warnings.simplefilter('ignore')
+            Fs = np.asarray(Volume(data=dsc, lattice=Lattice(m)).get_free_energy(temperature=temp).data)
+        ctx.check(bool(np.all(np.isfinite(Fs))) and np.allclose(Fs[visited], Fd[visited], rtol=1e-6 if single else 1e-9, atol=(1e-6 if single else 1e-12) * kT) and bool(np.all(Fs[~visited] > Fs[visited].max())), f'{what}: the same density multiplied by 2^{k_sc} gives another free energy (finite: {bool(np.all(np.isfinite(Fs)))}, min {Fs.min()!r}, max dev on visited voxels {np.abs(Fs[visited] - Fd[visited]).max():.3e} eV)', {'data': data, 'scale': f'2^{k_sc}', 'temperature': temp})
+        ctx.count('densities_rescaled_by_a_power_of_two(incl. subnormal totals)')
     nv = int(visited.sum())
     ctx.count(f'mode:{mode}')
     ctx.count('voxels_checked', data.size)
